@@ -67,6 +67,7 @@ def scenario(case):
     mdl = case["model"]; beta = mdl["beta"]
     sc = M.pipeline(mdl)
     sc.add("eigen", "eigen")
+    sc.add("weights", "weights")
     sc.add("ops 0", "ops")
     N = M.n_modes(mdl["sites"])
     for i in range(min(N, 3)):
@@ -147,6 +148,13 @@ def execute(case, ctx):
             return fail("rank %d holds different eigenvalues/eigenvectors than rank 0" % r, "eigen-ranks-differ")
         if np.abs(np.array(eg["all"]) - np.array(eg0["all"])).max() > 1e-10 * scale:
             return fail("rank %d: eigenvalues differ from the single-rank run" % r, "eigen-vs-reference")
+        if not abs(eg["ground"] - eg0["ground"]) <= 1e-10 * scale:
+            return fail("rank %d: ground energy %r differs from the single-rank run %r" % (r, eg["ground"], eg0["ground"]), "ground-vs-reference")
+        for key in ("weights",):
+            wa = a.get(key); w0 = ref.get(key)
+            if wa is not None and w0 is not None and "bystate" in wa:
+                if not np.allclose(np.array(wa["bystate"], dtype=float), np.array(w0["bystate"], dtype=float), rtol=1e-9, atol=1e-12):
+                    return fail("rank %d: density-matrix weights differ from the single-rank run" % r, "weights-vs-reference")
         for tag in sc.tags:
             if isinstance(tag, tuple) and tag[0] == "g":
                 x = [cx(v) for v in a.get(tag)["n"]]; y = [cx(v) for v in ref.get(tag)["n"]]
